@@ -19,6 +19,7 @@ package resilience
 
 import (
 	"context"
+	"fmt"
 	"math/rand"
 	"time"
 )
@@ -50,7 +51,10 @@ type RetryPolicy struct {
 
 // Validate validates the retry policy.
 func (p *RetryPolicy) Validate() error {
-	// TODO
+	// NOTE: the range in the jsonschema tag is not enforced for a minimum of 0.
+	if p.RandomizationFactor < 0 || p.RandomizationFactor > 1 {
+		return fmt.Errorf("randomizationFactor must be in [0, 1]")
+	}
 	return nil
 }
 
